@@ -72,7 +72,7 @@ class Parser:
     def is_type_start(self, k=0):
         tok = self.peek(k)
         if tok.kind != 'id': return False
-        if tok.text in ('const', 'std', 'typename', 'mutable', 'static', 'struct'): return True
+        if tok.text in ('const', 'constexpr', 'std', 'typename', 'mutable', 'static', 'struct'): return True
         return tok.text in BUILTIN_TYPES or tok.text in self.typenames or tok.text in self.template_params
 
     def split_shr(self):
@@ -83,8 +83,8 @@ class Parser:
 
     def parse_type(self):
         const = False
-        while self.at('const') or self.at('typename') or self.at('struct'):
-            if self.next().text == 'const': const = True
+        while self.at('const') or self.at('constexpr') or self.at('typename') or self.at('struct'):
+            if self.next().text in ('const', 'constexpr'): const = True
         parts = []
         # multiword builtin: unsigned int, long long ...
         if self.peek().text in ('unsigned', 'signed', 'long', 'short'):
